@@ -9,7 +9,7 @@ from __future__ import annotations
 
 import ast
 
-from .pyast import Unrecognised, clean, find_class, find_def, if_chain, kw_defaults, parse, unparse
+from .pyast import Unrecognised, clean, find_class, find_def, if_chain, kw_defaults, parse, unparse  # noqa: F401
 
 POST_TESTS = {
     "argparse.SUPPRESS in wrapper.defaults and field.dest not in parsed_args": "SkSuppressAbsent",
@@ -352,6 +352,183 @@ def _exc_name(node):
     raise Unrecognised(f"raise of {unparse(node)[:60]}")
 
 
+# ---- sites that used to be tied by the sampled correspondence only (tie audit) ------------------------
+
+
+SUBGROUP_TESTS = {"field.is_subgroup": "SkSubgroup", "field.is_subgroup and field.field.init": None}
+
+
+def _subgroup_select(tree):
+    """_get_subgroup_fields: which fields of which wrappers are subgroup choices, and under which key."""
+    fn = find_def(tree, "_get_subgroup_fields")
+    body = clean(fn.body)
+    texts = [unparse(x) for x in body]
+    if len(body) != 4 or texts[0] != "subgroup_fields = {}" or texts[1] != "all_wrappers = _flatten_wrappers(wrappers)" \
+            or texts[3] != "return subgroup_fields":
+        raise Unrecognised(f"_get_subgroup_fields: statements {texts}")
+    outer = body[2]
+    if not (isinstance(outer, ast.For) and unparse(outer.target) == "wrapper" and unparse(outer.iter) == "all_wrappers"):
+        raise Unrecognised("_get_subgroup_fields: outer loop")
+    ob = clean(outer.body)
+    if len(ob) != 1 or not (isinstance(ob[0], ast.For) and unparse(ob[0].target) == "field" and unparse(ob[0].iter) == "wrapper.fields"):
+        raise Unrecognised("_get_subgroup_fields: inner loop must be `for field in wrapper.fields`")
+    ib = clean(ob[0].body)
+    if len(ib) != 1 or not isinstance(ib[0], ast.If) or ib[0].orelse:
+        raise Unrecognised("_get_subgroup_fields: selection test")
+    t = unparse(ib[0].test)
+    if SUBGROUP_TESTS.get(t) is None:
+        raise Unrecognised(f"_get_subgroup_fields: selection test `{t}`")
+    stmts = [unparse(x) for x in clean(ib[0].body) if not isinstance(x, ast.Assert)]
+    if stmts != ["subgroup_fields[field.dest] = field"]:
+        raise Unrecognised(f"_get_subgroup_fields: what is recorded: {stmts}")
+    return [SUBGROUP_TESTS[t]]
+
+
+def _suppress_arm(cls):
+    """_instantiate_dataclasses: what a wrapper registered with default=SUPPRESS yields."""
+    fn = find_def_in(cls, "_instantiate_dataclasses")
+    loop = _one(_for_loops(fn, "destination", "dc_wrapper.destinations"), "_instantiate_dataclasses: destination loop")
+    body = clean(loop.body)
+    texts = [unparse(x) for x in body]
+    if "constructor_args = constructor_arguments.pop(destination)" not in texts or "constructor = dc_wrapper.dataclass_fn" not in texts:
+        raise Unrecognised("_instantiate_dataclasses: constructor / constructor_args")
+    arms = [x for x in body if isinstance(x, ast.If) and unparse(x.test) == "argparse.SUPPRESS in dc_wrapper.defaults"]
+    arm = _one(arms, "_instantiate_dataclasses: the SUPPRESS arm")
+    if [unparse(x) for x in clean(arm.orelse)] != ["value_for_dataclass_field = _create_dataclass_instance(dc_wrapper, constructor, constructor_args)"]:
+        raise Unrecognised("_instantiate_dataclasses: how the instance is created")
+    b = [unparse(x) for x in clean(arm.body)]
+    if b == ["if constructor_args == {}:\n    value_for_dataclass_field = None\nelse:\n    value_for_dataclass_field = constructor_args"]:
+        return True
+    if b == ["value_for_dataclass_field = constructor_args"]:
+        return False
+    raise Unrecognised(f"_instantiate_dataclasses: body of the SUPPRESS arm {b}")
+
+
+def _set_defaults(cls):
+    """set_defaults: entries for existing wrappers are routed to the wrapper, the rest goes to argparse; _add_arguments keeps
+    an earlier parser-level entry in parser._defaults."""
+    fn = find_def_in(cls, "set_defaults")
+    body = clean(fn.body)
+    if unparse(body[-1]) != "super().set_defaults(**kwargs)":
+        raise Unrecognised("set_defaults: the remaining keywords must go to super().set_defaults(**kwargs)")
+    loops = [x for x in body if isinstance(x, ast.For) and unparse(x.target) == "wrapper" and unparse(x.iter) == "self._wrappers"]
+    loop = _one(loops, "set_defaults: loop over self._wrappers")
+    lb = clean(loop.body)
+    if len(lb) != 1 or not isinstance(lb[0], ast.If) or unparse(lb[0].test) != "wrapper.dest in kwargs" or lb[0].orelse:
+        raise Unrecognised("set_defaults: routing test")
+    inner = [unparse(x) for x in clean(lb[0].body)]
+    if "wrapper.set_default(default_for_dataclass)" not in inner:
+        raise Unrecognised("set_defaults: the wrapper does not receive the entry")
+    pops = [n for n in ast.walk(fn) if isinstance(n, ast.Call) and unparse(n.func) in ("kwargs.pop", "kwargs.__delitem__")]
+    dels = [n for n in ast.walk(fn) if isinstance(n, ast.Delete)]
+    if dels or len(pops) > 1:
+        raise Unrecognised("set_defaults: keywords removed in an unknown way")
+    if pops:
+        if inner[-1] != "kwargs.pop(wrapper.dest)":
+            raise Unrecognised("set_defaults: position of kwargs.pop(wrapper.dest)")
+        routes = True
+    else:
+        routes = False
+    # nothing between the loop and the super() call may put keys back / take keys away
+    idx = body.index(loop)
+    between = [unparse(x) for x in body[idx + 1:-1]]
+    if between != ["self.constructor_arguments = dict_union(self.constructor_arguments, kwarg_defaults_set_in_dataclasses, "
+                   "dict_factory=lambda: defaultdict(dict))"]:
+        raise Unrecognised(f"set_defaults: statements before super().set_defaults: {between}")
+    add = find_def_in(cls, "_add_arguments")
+    ifs = [x for x in clean(add.body) if isinstance(x, ast.If) and unparse(x.test) == "new_wrapper.dest in self._defaults"]
+    a = _one(ifs, "_add_arguments: use of an earlier parser-level default")
+    if [unparse(x) for x in clean(a.body)] != ["new_wrapper.set_default(self._defaults[new_wrapper.dest])"] or a.orelse:
+        raise Unrecognised("_add_arguments: an earlier parser-level default must stay in parser._defaults")
+    return routes
+
+
+PREPROCESSING = [
+    "if self._preprocessing_done:\n    return",
+    "FieldWrapper.add_dash_variants = self.add_option_string_dash_variants",
+    "FieldWrapper.argument_generation_mode = self.argument_generation_mode",
+    "FieldWrapper.nested_mode = self.nested_mode",
+    "args = list(args)",
+    "wrapped_dataclasses = self._wrappers.copy()",
+    "wrapped_dataclasses = self._conflict_resolver.resolve_and_flatten(wrapped_dataclasses)",
+    "wrapped_dataclasses, chosen_subgroups = self._resolve_subgroups(wrappers=wrapped_dataclasses, args=args, namespace=namespace)",
+    "wrapped_dataclasses = _flatten_wrappers(wrapped_dataclasses)",
+    "for wrapped_dataclass in wrapped_dataclasses:\n    wrapped_dataclass.add_arguments(parser=self)",
+    "self._wrappers = wrapped_dataclasses",
+    "self._preprocessing_done = True",
+]
+
+
+def _setup(cls, site):
+    """_preprocessing: runs once; registers the arguments of exactly the wrappers that post-processing later walks
+    (self._wrappers := the flattened list whose add_arguments were called)."""
+    fn = find_def_in(cls, "_preprocessing")
+    body = clean(fn.body)
+    texts = []
+    for x in body:
+        if isinstance(x, ast.For) and unparse(x.target) == "parent":
+            if site != "PPreprocess":
+                raise Unrecognised("_preprocessing: loop over parents")
+            continue
+        if isinstance(x, ast.For):
+            x = ast.For(target=x.target, iter=x.iter, body=clean(x.body), orelse=x.orelse, lineno=0, col_offset=0)
+        texts.append(unparse(x))
+    optional = set(PREPROCESSING[1:4])   # re-asserting the class-level settings is behaviour-neutral for C09
+    if [t for t in texts if t not in optional] != [t for t in PREPROCESSING if t not in optional]:
+        raise Unrecognised("_preprocessing: statements changed: " + " | ".join(texts)[:400])
+    return True
+
+
+def _config_default(init, cls):
+    """Does a parser built without config keywords declare a --config_path argument by itself?"""
+    d = kw_defaults(init)
+    for k in ("add_config_path_arg", "config_path"):
+        if k not in d:
+            raise Unrecognised(f"ArgumentParser.__init__: keyword {k}")
+    texts = [unparse(x) for x in clean(init.body)]
+    if "self.add_config_path_arg = add_config_path_arg" not in texts \
+            or "self.config_path = Path(config_path) if isinstance(config_path, str) else config_path" not in texts:
+        raise Unrecognised("ArgumentParser.__init__: config_path / add_config_path_arg attributes")
+    cp = unparse(d["config_path"])
+    ac = unparse(d["add_config_path_arg"])
+    if cp != "None":
+        raise Unrecognised(f"ArgumentParser.__init__: config_path default {cp}")
+    rule = "if add_config_path_arg is None:\n    add_config_path_arg = bool(config_path)"
+    if ac == "None":
+        if rule not in texts:
+            raise Unrecognised("ArgumentParser.__init__: rule for add_config_path_arg=None")
+        by_default = False
+    elif ac in ("False", "True"):
+        by_default = ac == "True"
+    else:
+        raise Unrecognised(f"ArgumentParser.__init__: add_config_path_arg default {ac}")
+    pk = find_def_in(cls, "parse_known_args")
+    guards = [unparse(x.test) for x in clean(pk.body) if isinstance(x, ast.If)]
+    if "self.config_path" not in guards or "self.add_config_path_arg" not in guards:
+        raise Unrecognised("parse_known_args: the config-file steps are no longer guarded by config_path / add_config_path_arg")
+    return by_default
+
+
+def _generated_dest(fw_tree):
+    """FieldWrapper.get_arg_options: the action's dest is the field's (dotted) dest; custom options are merged last."""
+    fn = find_def(fw_tree, "get_arg_options", cls="FieldWrapper")
+    hits = []
+    for n in ast.walk(fn):
+        if isinstance(n, ast.Assign) and unparse(n.targets[0]) == "_arg_options['dest']":
+            hits.append(unparse(n.value))
+    if hits != ["self.dest"]:
+        raise Unrecognised(f"get_arg_options: dest is set from {hits}")
+    ifs = [x for x in clean(fn.body) if isinstance(x, ast.If) and unparse(x.test) == "not self.field.metadata.get('positional')"]
+    i = _one(ifs, "get_arg_options: positional test")
+    if "_arg_options['dest'] = self.dest" not in [unparse(x) for x in clean(i.body)]:
+        raise Unrecognised("get_arg_options: dest must be set for every non-positional field")
+    osf = find_def(fw_tree, "option_strings", cls="FieldWrapper")
+    rets = [unparse(n.value) for n in ast.walk(osf) if isinstance(n, ast.Return) and n.value is not None]
+    if "[self.dest]" not in rets:
+        raise Unrecognised("option_strings: a positional field is registered under another name than its dest")
+    return True
+
+
 # ---- add_argument_group, add_argument, parse_known_args ----------------------------------------------
 
 
@@ -431,6 +608,12 @@ def emit(repo: str) -> str:
     dw = find_class(parse(repo, "simple_parsing/wrappers/dataclass_wrapper.py"), "DataclassWrapper")
     setup_skips = _setup_skips(dw)
     wrapper_skips = _wrapper_skips(dw)
+    sgsel = _subgroup_select(pt)
+    sup_none = _suppress_arm(cls)
+    routes = _set_defaults(cls)
+    setup_once = _setup(cls, site)
+    config_by_default = _config_default(init, cls)
+    gen_dest = _generated_dest(parse(repo, "simple_parsing/wrappers/field_wrapper.py"))
 
     def sl(xs):
         return "[" + "; ".join(xs) + "]"
@@ -451,6 +634,15 @@ def emit(repo: str) -> str:
         f"Definition setup_skips_gen : list skipc := {sl(setup_skips)}.\n"
         f"Definition post_skips_gen : list skipc := {sl(post_skips)}.\n"
         f"Definition subgroups_removed_first_gen : bool := {b(sg_first)}.\n"
+        "(* _get_subgroup_fields; the SUPPRESS arm of _instantiate_dataclasses; set_defaults routing *)\n"
+        f"Definition subgroup_select_gen : list skipc := {sl(sgsel)}.\n"
+        f"Definition suppress_empty_none_gen : bool := {b(sup_none)}.\n"
+        f"Definition set_defaults_routes_gen : bool := {b(routes)}.\n"
+        "(* shape facts: _preprocessing registers once, exactly the wrappers post-processing walks; the action's dest is the\n"
+        "   field's dest; a parser built without config keywords declares no argument of its own *)\n"
+        f"Definition setup_once_same_wrappers_gen : bool := {b(setup_once)}.\n"
+        f"Definition generated_dest_is_field_dest_gen : bool := {b(gen_dest)}.\n"
+        f"Definition config_arg_by_default_gen : bool := {b(config_by_default)}.\n"
         "(* _instantiate_dataclasses: a namespace attribute already sits at the destination *)\n"
         f"Definition collision_err_gen : err := Raise \"{exc}\".\n"
         f"Definition collision_defaults_overwrite_gen : bool := {b(dfl_ok)}.\n"
@@ -464,16 +656,20 @@ def emit(repo: str) -> str:
         "Definition registered_gen := registered wrapper_skips_gen setup_skips_gen.\n"
         "Definition reg_dests_gen := reg_dests wrapper_skips_gen setup_skips_gen.\n"
         "Definition generated_gen := generated wrapper_skips_gen setup_skips_gen.\n"
-        "Definition subgroup_dests_gen := subgroup_dests wrapper_skips_gen.\n"
-        "Definition remove_subgroups_gen := remove_subgroups wrapper_skips_gen subgroups_removed_first_gen.\n"
+        "Definition subgroup_dests_gen := subgroup_dests wrapper_skips_gen subgroup_select_gen.\n"
+        "Definition remove_subgroups_gen := remove_subgroups wrapper_skips_gen subgroups_removed_first_gen subgroup_select_gen.\n"
         "Definition fill_gen := fill wrapper_skips_gen post_skips_gen.\n"
-        "Definition instantiate_gen := instantiate wrapper_skips_gen collision_err_gen collision_defaults_overwrite_gen.\n"
+        "Definition instantiate_gen := instantiate wrapper_skips_gen post_skips_gen collision_err_gen\n"
+        "  collision_defaults_overwrite_gen suppress_empty_none_gen.\n"
         "Definition post_gen := post wrapper_skips_gen post_skips_gen subgroups_removed_first_gen collision_err_gen\n"
-        "  collision_defaults_overwrite_gen.\n"
+        "  collision_defaults_overwrite_gen subgroup_select_gen suppress_empty_none_gen.\n"
+        "Definition default_keys_gen := default_keys set_defaults_routes_gen.\n"
         "Definition sp_known_gen := sp_known wrapper_skips_gen setup_skips_gen post_skips_gen subgroups_removed_first_gen\n"
-        "  collision_err_gen collision_defaults_overwrite_gen parents_site_gen.\n"
+        "  collision_err_gen collision_defaults_overwrite_gen parents_site_gen subgroup_select_gen suppress_empty_none_gen\n"
+        "  set_defaults_routes_gen.\n"
         "Definition sp_parse_args_gen := sp_parse_args wrapper_skips_gen setup_skips_gen post_skips_gen subgroups_removed_first_gen\n"
-        "  collision_err_gen collision_defaults_overwrite_gen parents_site_gen.\n"
+        "  collision_err_gen collision_defaults_overwrite_gen parents_site_gen subgroup_select_gen suppress_empty_none_gen\n"
+        "  set_defaults_routes_gen.\n"
         "Definition ap_known_gen := ap_known wrapper_skips_gen setup_skips_gen.\n"
         "Definition sp_group_gen := sp_group group_prefix_fwd_gen group_default_fwd_gen group_handler_fwd_gen.\n"
     )
